@@ -3,6 +3,8 @@ import I2N.Lemmas.TravExcl
 import I2N.Model.TravMon
 import I2N.Lemmas.PyGen
 import I2N.Extracted.GenScope
+import I2N.Extracted.GenBackoff
+import I2N.Lemmas.TravBackoff
 /-!
 # C04 — A test is never executed by two workers of one scope at the same time
 
@@ -403,6 +405,71 @@ theorem mctParam_bump (g : Graph) (s s' : State) (n : Nat) (h : (s'.nd n).bump =
 example : genIsOccupied none none (fun t => t == 1) = true ∧ genIsOccupied none (some 3) (fun t => t == 3) = true ∧
     genIsOccupied (some 0) (some 3) (fun t => t == 1) = true ∧ genIsOccupied (some 2) (some 3) (fun t => t == 2) = true := by
   decide
+
+/-! ### The back-off branch of the worker loop (`traverse_object_trees`)
+
+`genBackoff` (I2N/Extracted/GenBackoff.lean) is regenerated on every run from the body of `if next.is_occupied(worker):`
+in the `while` loop of `TestGraph.traverse_object_trees`, cut at its `await asyncio.sleep(<arg>)` (harness/pygen_pxtrav.py):
+budget `test_timeout * max(max_tries, 1)`, time out `round(max(budget / 1000, 0.1), 2)`, the test `next in occupied_at`,
+the bump of `max_concurrent_tries` when `occupied_wait > budget`, `occupied_wait += time out` against the reset to 0.0,
+`occupied_at.add(next)`, the path reset to the root; its value is the frame the coroutine holds when it suspends,
+INCLUDING the argument of the sleep.  The three float operations are the Lean `Float` operations of `Trav.iter`
+(declared in harness/pygen_pxtrav.py `FLOAT_OPS`); the comparison, the accumulation and the slept time are translated. -/
+
+open I2N.Extracted.GenBackoff in
+/-- adapter: the step of worker `w` that the generated branch describes — run it on the loop state of `w` (`occAt`,
+`occWait`) and the parameters of the copy `next`, store the frame in the worker record (program counter `bounce`: the
+coroutine is suspended in the sleep) and announce the sleep of the duration the branch hands to `asyncio.sleep` -/
+def backoffStep (g : Graph) (s : State) (w next : Nat) : Step :=
+  let wd := s.wd w
+  let nd := g.node next
+  let r := (genBackoff (nd.timeout : Int) nd.maxTries next g.root wd.occAt wd.occWait).run s
+  (r.2.setWd w (fun d => { d with occAt := r.1.1, occWait := r.1.2.1, path := r.1.2.2.1, pc := .bounce }),
+   [Event.sleep (g.worker w).id r.1.2.2.2], .suspend)
+
+open I2N.Extracted.GenBackoff in
+/-- **The back-off branch of the hand written `iter` is the Python source**: for every graph, state and worker, whenever
+the loop reaches the test `if next.is_occupied(worker):` and it holds (the hypotheses are exactly the tests of the loop
+skeleton in front of the branch, which is not translated: the root is not cleanup ready, the path has at least two
+entries, `next` is its last entry), one iteration of the model IS the generated branch: same new state (worker record,
+bump of the copy), same event (the sleep of the duration the source hands to `asyncio.sleep`, in hundredths), same
+flow (suspension).  Not covered: the loop skeleton around the branch and the lazy expansion step in front of it
+(`iterL`). -/
+theorem backoff_matches_source (g : Graph) (s : State) (w next : Nat)
+    (hroot : isCleanupReady g s g.root w = false)
+    (hlast : (s.wd w).path.getLast? = some next)
+    (hlen : ((s.wd w).path.length == 1) = false)
+    (hocc : isOccupied g s next w = true) :
+    iter g s w = backoffStep g s w next := by
+  unfold iter backoffStep
+  simp only [hroot, hlast, hlen, hocc, Bool.false_eq_true, if_false, if_true, genBackoff_run]
+  refine Prod.ext ?_ rfl
+  show _ = _
+  by_cases hin : (s.wd w).occAt.contains next = true
+  · by_cases hgt : (s.wd w).occWait > Float.ofInt (((g.node next).timeout : Int) * max ((g.node next).maxTries.getD 1) 1)
+    · simp only [hin, hgt, if_true, decide_true, Bool.and_self, setWd_setWd]
+      apply setWd_congr
+      simp only [Function.comp, wd_setNd, hin, if_true, setAdd, hundredths]
+    · simp only [hin, hgt, if_true, if_false, decide_false, Bool.and_false, Bool.false_eq_true, setWd_setWd]
+      apply setWd_congr
+      simp only [Function.comp, hin, if_true, setAdd, hundredths]
+  · simp only [hin, if_false, Bool.false_and, Bool.false_eq_true, setWd_setWd]
+    apply setWd_congr
+    simp only [Function.comp, hin, if_false, setAdd, Bool.false_eq_true]
+
+/-- non-vacuity: net2 of `g3` stands at its copy of the customize node while net1 is inside the class (`s3` above) -/
+example : isCleanupReady g3 s3 g3.root 1 = false ∧ (s3.wd 1).path.getLast? = some 1 ∧
+    ((s3.wd 1).path.length == 1) = false ∧ isOccupied g3 s3 1 1 = true := by decide
+
+open I2N.Extracted.GenBackoff in
+/-- what the source accounts is what it sleeps: at a node the worker was turned away from before, the wait grows by
+exactly the duration handed to `asyncio.sleep` (the fourth component of the frame, in hundredths); at a new node it is
+reset.  A statement about the GENERATED definition (so about /repo's current source), for all arguments. -/
+theorem backoff_sleep_is_accounted (T : Int) (mt : Option Int) (next root : Nat) (occ : List Nat) (wait : Float) (s : State) :
+    let fr := ((genBackoff T mt next root occ wait).run s).1
+    fr.2.1 = (if occ.contains next then wait + Float.ofNat fr.2.2.2 / 100.0 else 0.0) ∧
+    fr.1 = setAdd occ next ∧ fr.2.2.1 = [root] ∧ fr.2.2.2 = hundredths (T * max (mt.getD 1) 1) := by
+  simp only [genBackoff_run, and_self]
 
 end Regenerated
 
